@@ -145,6 +145,15 @@ def run_impl(dialect, override, per_mig, hist, cmd, target, start_rows, bodies, 
                         for _ in range(k):
                             ctx.execute("SELECT 'MARK_%s_auto_%d'" % (rev, n))
                             n += 1
+                elif kind == "autoindex":
+                    # the documented practice for concurrent indexes: a real op inside the autocommit section
+                    from alembic.operations import Operations
+
+                    with ctx.autocommit_block():
+                        for _ in range(k):
+                            Operations(ctx).create_index("ix_MARK_%s_auto_%d" % (rev, n), "some_table", ["some_col"],
+                                                         postgresql_concurrently=True)
+                            n += 1
                 else:
                     # an autocommit section left through an exception the migration itself handles
                     # (`if context.is_offline_mode(): raise Skip()` around a data backfill)
@@ -250,7 +259,7 @@ def run_impl(dialect, override, per_mig, hist, cmd, target, start_rows, bodies, 
             rev_index[("stamp_revision", *st.short_log.split(" ", 1)[1].split(" -> "))] = i
             segs = []
         # for the framing an autocommit section is one however it is left
-        migs.append({"segs": [{"kind": "auto" if k == "autoraise" else k, "n": n} for k, n in segs]})
+        migs.append({"segs": [{"kind": "auto" if k in ("autoraise", "autoindex") else k, "n": n} for k, n in segs]})
     text_out = buf.getvalue().decode(enc) if enc else buf.getvalue()
     toks, unknown = tokenise(text_out, rev_index, seps=tuple(v for k, v in (dopts or {}).items() if v and k != "output_encoding"))
     before = [sorted(start_rows)] + heads_after[:-1]
@@ -276,7 +285,7 @@ def gen_bodies(rng, hist):
         segs = []
         for _ in range(rng.choice([0, 1, 1, 2, 3])):
             if rng.random() < 0.4:
-                segs.append((rng.choice(["auto", "auto", "autoraise"]), rng.choice([0, 1, 1, 2])))
+                segs.append((rng.choice(["auto", "auto", "autoraise", "autoindex"]), rng.choice([0, 1, 1, 2])))
             else:
                 segs.append(("plain", rng.choice([0, 1, 2, 3])))
         bodies[r["id"]] = segs
